@@ -66,6 +66,51 @@ def load_gen(name):
     return j
 
 
+# ------------------------------------------------------------------ audit of the development
+FORBIDDEN = [r'\bAdmitted\b', r'\badmit\b', r'^\s*Axiom\b', r'^\s*Axioms\b', r'^\s*Parameter\b', r'^\s*Parameters\b', r'^\s*Conjecture\b', r'^\s*Hypothesis\b', r'^\s*Hypotheses\b',
+             r'^\s*Variable\b', r'^\s*Variables\b', r'Admit Obligations', r'Unset Guard Checking', r'Unset Positivity Checking', r'Unset Universe Checking',
+             r'bypass_check', r'-type-in-type', r'-impredicative-set']
+
+
+def audit_sources():
+    """scan every hand-written .v file of the development: no Admitted / admit / Axiom / Parameter / Conjecture, no Variable / Hypothesis outside a Section,
+    no switched-off kernel checks.  Returns a list of 'file:line: text'."""
+    bad = []
+    for d in ('lib', 'model', 'spec', 'proofs', 'props', 'pending'):
+        for f in sorted(glob.glob(os.path.join(COQ, d, '*.v'))):
+            depth = 0
+            incomment = 0
+            for ln, line in enumerate(open(f), 1):
+                # strip comments (nesting aware, good enough for this code base: no comment markers inside strings)
+                out = ''
+                i = 0
+                while i < len(line):
+                    if line.startswith('(*', i):
+                        incomment += 1; i += 2
+                    elif line.startswith('*)', i) and incomment:
+                        incomment -= 1; i += 2
+                    else:
+                        if not incomment:
+                            out += line[i]
+                        i += 1
+                if re.match(r'^\s*Section\b', out):
+                    depth += 1
+                elif re.match(r'^\s*End\b', out) and depth:
+                    depth -= 1
+                for pat in FORBIDDEN:
+                    if re.search(pat, out):
+                        if re.search(r'Variable|Hypothes', pat) and depth > 0:
+                            continue
+                        bad.append('%s:%d: %s' % (os.path.relpath(f, COQ), ln, out.strip()[:120]))
+    for extra in ('_CoqProject',):
+        pth = os.path.join(COQ, extra)
+        if os.path.exists(pth):
+            for ln, line in enumerate(open(pth), 1):
+                if re.search(r'-type-in-type|-impredicative-set|-noinit', line):
+                    bad.append('%s:%d: %s' % (extra, ln, line.strip()))
+    return bad
+
+
 # ------------------------------------------------------------------ coq build
 def write_coqproject():
     files = []
